@@ -79,10 +79,10 @@ class C18(vlib.Spec):
     search_budget_s = 60
 
     def gen(self, rng, tier, n):
-        return [dict(c, k="compile") for c in P.gen_programs(rng, tier, n)]
+        return [dict(c, k="compile") for c in P.gen_programs(rng, tier, n, corpus="C18")]
 
     def n_cases(self, tier):
-        return 330 if tier == "quick" else 2500
+        return 240 if tier == "quick" else 2500
 
     def to_coq(self, case, res):
         if not isinstance(res, dict) or "flat" not in res:
@@ -159,7 +159,7 @@ class C18(vlib.Spec):
                     marks[str(n["delay"])] = marks.get(str(n["delay"]), 0) + 1
         # negative controls: the checker must reject corrupted copies of real outputs
         terms, kinds = [], []
-        for g in parts[:60]:
+        for g in parts[:30]:
             for kind, m in mutants(g):
                 terms.append("wf_code ops_table %s" % P.g_graph(m))
                 kinds.append(kind)
